@@ -79,6 +79,19 @@ class Ctx:
 
     def build_harness(self, race=False):
         hdir = os.path.join(VERIF, "harness")
+        if REPO != "/repo":
+            # development aid (seed experiments on a scratch worktree while /repo is in use): build a copy of the
+            # harness whose module replacement points at that tree. Nothing produced this way is written to /verif.
+            hcopy = os.path.join(self.scratch, "harness")
+            if not os.path.isdir(hcopy):
+                shutil.copytree(hdir, hcopy)
+                gm = os.path.join(hcopy, "go.mod")
+                with open(gm) as f:
+                    txt = f.read()
+                with open(gm, "w") as f:
+                    f.write(txt.replace("=> /repo", "=> " + REPO))
+            hdir = hcopy
+            self.no_evidence_files = True
         # keep go.sum in step with the repository under test
         try:
             shutil.copyfile(os.path.join(REPO, "go.sum"), os.path.join(hdir, "go.sum"))
@@ -357,6 +370,12 @@ class Ctx:
             print("KNOWN-FINDING: property=%s %s [%s] (%d cases)" % (self.pid, what, key, n))
         if getattr(self, "no_evidence", False):
             # replay mode: nothing is written, the caller inspects self.violations
+            return 1 if self.violations else 0
+        if getattr(self, "no_evidence_files", False):
+            for v in self.violations:
+                print("VIOLATION property=%s replay=(snapshot run, nothing written)" % self.pid)
+                print("  key=%s cases=%d: %s" % (v["key"], v["count"], v["what"]))
+            log("[%s] snapshot run against %s: %d violations" % (self.pid, REPO, len(self.violations)))
             return 1 if self.violations else 0
         if self.violations:
             os.makedirs(outdir, exist_ok=True)
